@@ -154,6 +154,51 @@ theorem C09_fec_header_ids (par : List Bytes → Nat → Bytes) (ho : Nat) (e : 
     · show (encode par ho e body now rto).enc.paws = _
       rw [he]; rfl
 
+/-- the FEC header of every packet the FEC stage can produce, in one statement -/
+theorem C09_fec_header (par : List Bytes → Nat → Bytes) (ho : Nat) (e : Enc) (body : Bytes) (now rto : Int)
+    (h : e.Inv) (hb : body.length + 2 < 65536) :
+    let o := encode par ho e body now rto
+    -- data ⇒ type 0xF1, seqid % n < d, size = |payload| + 2
+    (Spec.parseFec o.pkt.rest = some { seqid := BitVec.ofNat 32 e.next, typ := 0xF1#16, body := sizeField body.length ++ body } ∧
+      Spec.parseSized (sizeField body.length ++ body) = some (body.length + 2, body) ∧ e.next % (e.d + e.p) < e.d) ∧
+    -- parity ⇒ type 0xF2, seqid % n ≥ d
+    (∀ q ∈ o.parity, (∃ b, Spec.parseFec q.rest = some { seqid := BitVec.ofNat 32 q.seqid, typ := 0xF2#16, body := b }) ∧
+      e.d ≤ q.seqid % (e.d + e.p)) ∧
+    -- OOB ⇒ type 0xF3, seqid 0xFFFFFFFF, encoder untouched
+    (Spec.parseFec (encodeOOB e body).pkt.rest =
+        some { seqid := 0xFFFFFFFF#32, typ := 0xF3#16, body := sizeField body.length ++ body } ∧ (encodeOOB e body).enc = e) ∧
+    -- ids: each is `next` = counter % paws; the counter advances by 1 or 1 + p; invariant kept
+    (o.pkt.seqid = o.pkt.vid % e.paws ∧ (∀ q ∈ o.parity, q.seqid = q.vid % e.paws ∧ o.pkt.vid < q.vid ∧ q.vid < o.enc.vnext) ∧
+      (o.enc.vnext = e.vnext + 1 ∨ o.enc.vnext = e.vnext + 1 + e.p) ∧ o.enc.Inv) := by
+  intro o
+  have hd := C09_fec_header_data par ho e body now rto h hb
+  have hp := C09_fec_header_parity par ho e body now rto h
+  have ho' := C09_fec_header_oob e body hb
+  have hi := C09_fec_header_ids par ho e body now rto h
+  refine ⟨⟨hd.2.2.1, hd.2.2.2.1, hd.2.2.2.2.1⟩, fun q hq => ⟨(hp.2 q hq).2.1, (hp.2 q hq).2.2.1⟩, ⟨ho'.2.1, rfl⟩,
+    hi.2.2.1, fun q hq => ⟨(hp.2 q hq).2.2.2.2.1, ?_, (hi.2.2.2.2.1 q hq).2⟩, hi.2.2.2.1, hi.1⟩
+  rw [hi.2.1]; exact (hi.2.2.2.2.1 q hq).1
+
+/-- end to end for a data packet: FEC header, size field and the core's segments behind them are
+accepted by the specification's body parser as a DATA frame carrying exactly those segments -/
+theorem C09_data_frame_accepted (par : List Bytes → Nat → Bytes) (ho : Nat) (e : Enc) (segs : List Seg) (now rto : Int)
+    (h : e.Inv) (hne : segs ≠ []) (hwf : ∀ s ∈ segs, s.WF) (hb : (encodeSegs segs).length + 2 < 65536) :
+    Spec.parseBody (some (e.d, e.p)) (encode par ho e (encodeSegs segs) now rto).pkt.rest =
+      some (.data (BitVec.ofNat 32 e.next) ((encodeSegs segs).length + 2) (segs.map fun s => (s.hdr, s.data))) := by
+  have hd := C09_fec_header_data par ho e (encodeSegs segs) now rto h hb
+  have hlt : e.next < 4294967296 := Nat.lt_trans h.next_lt (paws_lt e)
+  have hnat : (BitVec.ofNat 32 e.next).toNat = e.next := by
+    simp only [BitVec.toNat_ofNat]; exact Nat.mod_eq_of_lt hlt
+  have hpw : e.next < 4294967295 / (e.d + e.p) * (e.d + e.p) := h.next_lt
+  simp only [Spec.parseBody, hd.2.2.1, hd.2.2.2.1, hnat, hd.2.2.2.2.1, hpw, and_self, if_true,
+    decode_encodeSegs segs hne hwf, Option.map_some]
+  rfl
+
+/-- … and without FEC the datagram is the core's output itself -/
+theorem C09_kcp_frame_accepted (segs : List Seg) (hne : segs ≠ []) (hwf : ∀ s ∈ segs, s.WF) :
+    Spec.parseBody none (encodeSegs segs) = some (.kcp (segs.map fun s => (s.hdr, s.data))) := by
+  simp only [Spec.parseBody, decode_encodeSegs segs hne hwf, Option.map_some]
+
 /-- two packets whose unwrapped counters are less than a wrap period apart carry different ids -/
 theorem C09_fec_ids_distinct_within_period (paws v w : Nat) (hlt : v < w) (hper : w - v < paws) :
     v % paws ≠ w % paws := by
